@@ -205,6 +205,77 @@ def gen_short(ctx):
 SPECIAL_HASHES = [0, 1, 0xFFFFFFFF, 0x80000000, 0x7FFFFFFF, 7, 0x9E3779B9, 0xDEADBEEF]
 
 
+_CROWD = {}
+
+
+def crowded_pools():
+    """32-bit hashes whose promoted 64-bit hash (mix_u32: h * K mod 2^64, K read from starlark_map/src/mix_u32.rs) agree in
+    hashbrown's 7-bit tag (top bits) and/or in the probe start (low bits): the keys that crowd one probe sequence."""
+    if _CROWD:
+        return _CROWD
+    import re
+    k = 0x9E3779B97F4A7C15
+    try:
+        m = re.search(r"wrapping_mul\((0x[0-9a-fA-F_]+)\)", open(os.path.join(sv.REPO, "starlark_map/src/mix_u32.rs")).read())
+        k = int(m.group(1).replace("_", ""), 16)
+    except Exception:  # noqa: BLE001
+        pass
+    both, tag, low = [], [], []
+    t0, l0 = None, None
+    for h in range(1, 3000000):
+        p = (h * k) & 0xFFFFFFFFFFFFFFFF
+        t, lo = p >> 57, p & 127
+        if t0 is None:
+            t0, l0 = t, lo
+        if t == t0 and lo == l0:
+            both.append(h)
+        elif t == t0 and len(tag) < 400:
+            tag.append(h)
+        elif lo == l0 and len(low) < 400:
+            low.append(h)
+    _CROWD.update({"both": both, "tag": tag, "low": low})
+    return _CROWD
+
+
+def gen_crowded(ctx, count, thr):
+    """Histories on maps whose keys crowd one probe sequence of the index: grow past the threshold, then interleave removal
+    by key, removal by POSITION, pop and re-insertion (every lookup is compared after every step)."""
+    rng = ctx.rng
+    pools = crowded_pools()
+    cases = []
+    for ci in range(count):
+        kind = ["mixed", "both", "mixed", "tag", "mixed", "low"][ci % 6]
+        nkeys = rng.choice([40, 48, 56, 64])
+        if kind == "mixed":
+            # keys crowding ONE probe start (they overflow into the following groups) together with keys of the same tag
+            # whose probe starts elsewhere: a slot can then sit on another key's probe path in front of that key's own slot
+            ncrowd = int(nkeys * rng.choice([0.4, 0.5, 0.6, 0.7]))
+            hashes = rng.sample(pools["both"], ncrowd) + rng.sample(pools["tag"], nkeys - ncrowd)
+            rng.shuffle(hashes)
+        else:
+            pool = pools[kind] if kind != "both" else pools["both"] + pools["tag"][:8]
+            hashes = rng.sample(pool, min(len(pool), nkeys))
+            nkeys = len(hashes)
+        order = list(range(nkeys))
+        rng.shuffle(order)
+        ops = [["ins", k, k] for k in order[: rng.randint(thr + 8, nkeys)]]
+        size = len(ops)
+        for _ in range(rng.randint(60, 200)):
+            r = rng.random()
+            if size <= thr + 2 or r < 0.34:
+                ops.append(["ins", rng.randrange(nkeys), rng.randrange(100)]); size = min(nkeys, size + 1)
+            elif r < 0.62:
+                ops.append(["remi", rng.randrange(size)]); size -= 1
+            elif r < 0.80:
+                ops.append(["rem", rng.randrange(nkeys)]); size -= 1
+            elif r < 0.88:
+                ops.append(["pop"]); size -= 1
+            else:
+                ops.append(["entry", rng.randrange(nkeys), rng.randrange(100)]); size = min(nkeys, size + 1)
+        cases.append({"hashes": hashes, "ops": ops, "src": "crowded-" + kind})
+    return cases
+
+
 def gen_long(ctx, count, thr):
     rng = ctx.rng
     cases = []
@@ -492,7 +563,7 @@ def correspond(ctx):
     thr = threshold()
     corpus = corpus_cases()
     short, nalpha, full = gen_short(ctx)
-    longs = gen_long(ctx, ctx.n(400, 6000), thr)
+    longs = gen_long(ctx, ctx.n(400, 6000), thr) + gen_crowded(ctx, ctx.n(120, 1500), thr)
     cases = corpus + short + longs
     ctx.log("generated %d histories (%d corpus, %d short incl. all %d^%d, %d long)" % (len(cases), len(corpus), len(short), nalpha, full, len(longs)))
     failures, st = evaluate(ctx, cases)
@@ -536,7 +607,7 @@ def search(ctx, broken):
     old = ctx.tier
     ctx.tier = "thorough"
     try:
-        cases = corpus_cases() + gen_long(ctx, 4000, thr)
+        cases = corpus_cases() + gen_long(ctx, 4000, thr) + gen_crowded(ctx, 600, thr)
         short, _, _ = gen_short(ctx)
         cases += short[:300000]
     finally:
